@@ -132,6 +132,8 @@ type Result struct {
 	Samples     []string                  `json:"samples"`
 	Stubs       []string                  `json:"stubs_used"`
 	Notes       []string                  `json:"notes"`
+	Patterns    map[string]string         `json:"patterns,omitempty"` // regexp pattern -> RegLan
+	Langs       map[string][]LangPath     `json:"langs,omitempty"`
 }
 
 type Explorer struct {
@@ -159,6 +161,8 @@ type pstate struct {
 	prefix []Decision
 	log    []Decision
 	pcHash [32]byte
+	pc     []string
+	defs   map[string]string
 	inputs []inputRec
 	nvars  int
 	nnames int
@@ -557,6 +561,10 @@ func (st *pstate) nameBool(t string) string {
 	n := fmt.Sprintf("n%d", st.nnames)
 	st.nnames++
 	st.sol.send(fmt.Sprintf("(define-fun %s () Bool %s)", n, t))
+	if st.defs == nil {
+		st.defs = map[string]string{}
+	}
+	st.defs[n] = t
 	return n
 }
 
@@ -565,6 +573,7 @@ func (st *pstate) assertPC(t string) {
 		return
 	}
 	st.sol.send("(assert " + t + ")")
+	st.pc = append(st.pc, t)
 	h := sha256.New()
 	h.Write(st.pcHash[:])
 	h.Write([]byte(t))
@@ -705,7 +714,32 @@ func (st *pstate) witness() *Witness {
 	}
 	vals := map[string]string{}
 	if len(names) > 0 {
-		vals = st.sol.getValues(names)
+		// prefer a model whose string bytes are printable ASCII (natively replayable
+		// through text formats); fall back to an arbitrary model
+		var prefs []string
+		for _, in := range st.inputs {
+			if !in.isConc && in.kind == "str" {
+				for _, v := range in.vars {
+					prefs = append(prefs, "(and (bvuge "+v+" #x21) (bvule "+v+" #x7e) (not (= "+v+" #x22)) (not (= "+v+" #x27)))")
+				}
+			}
+		}
+		got := false
+		if len(prefs) > 0 {
+			st.sol.send("(push)")
+			st.sol.send("(assert " + tAnd(prefs...) + ")")
+			if st.sol.check() == "sat" {
+				vals = st.sol.getValues(names)
+				got = true
+			}
+			st.sol.send("(pop)")
+			if !got {
+				st.sol.check() // re-establish the model of the unconstrained context
+			}
+		}
+		if !got {
+			vals = st.sol.getValues(names)
+		}
 	}
 	w := &Witness{Harness: st.ex.Cfg.Harness, Params: st.ex.Cfg.Params}
 	for _, in := range st.inputs {
